@@ -64,3 +64,12 @@ package postgres
 //@   modifies nothing
 //@   ensures requested-qualifier-is-used: s.SchemaQualifier != nil ==> r == gvcTypeIdentOf(*s.SchemaQualifier, c.T)
 //@   ensures own-schema-only-by-default: s.SchemaQualifier == nil ==> r == gvcTypeIdentOf(gvcOwnSchema(c.Schema), c.T)
+
+// ---------------------------------------------------------------------------------------
+// C02: referential actions are compared with an unset action read as NO ACTION
+
+//@ func (d *diff) ReferenceChanged(from, to schema.ReferenceOption) (r bool)
+//@   modifies nothing
+//@   ensures same-action-is-unchanged: from == to ==> !r
+//@   ensures unset-means-no-action: (from == "" && to == schema.NoAction) || (from == schema.NoAction && to == "") ==> !r
+//@   ensures explicit-actions-compared-exactly: from != "" && to != "" ==> r == (from != to)
